@@ -120,7 +120,7 @@ func (c *Ctx) cycleEntries() map[*ssa.Function]string {
 }
 
 func c09(c *Ctx) {
-	c.R.Explanation = "C09: decided over the VTA call graph of /repo. Entries = every FanController.UpdateFanSpeed implementation, the actors and interrupt functions of the per-fan run.Group, the sensor-monitor Run, prometheus Collect methods and REST handlers. R-nocrash = no crash site (builtin panic, pterm.Fatal/ui.Fatal, os.Exit/log.Fatal and repository wrappers that never return, comma-less type assertion on an error) lies in an *error context* reachable from those entries; error context = a block reachable from an edge establishing err != nil for an error-typed value, or any function called (transitively) from such a block. Crash sites outside error contexts are listed as not-on-an-I/O-error-path (configuration-dependent ones belong to C11). R-errpair = in the functions reachable from those entries, the value result of a fallible library call (T, error) with T a pointer or interface is dereferenced / has a method invoked only where the error of that same call is established nil; the one partial test of the code base, !os.IsNotExist(err) after os.Stat, is accepted only when the path handed to Stat is the result of a successful filepath.EvalSymlinks (which already failed for every path Stat would fail on; the race between the two calls is assumed away). R-propagate = every SpeedCurve.Evaluate implementation returns a non-nil error on every path from the error edge of a fallible call. R-contain = from the error edge of UpdateFanSpeed in the control goroutine every return is the nil constant and no crash site is reachable. R-actor-nil = every return of every actor of the per-fan run.Group and of the sensor monitor is the nil constant (a non-nil actor error reaches ui.Fatal in the interrupt function and panic(err) in the daemon's actor wrapper). R-restore = when the control goroutine gives up on a fan (cycle error, cancellation, failed initialisation) every return is in state restored of the C03 typestate (original mode confirmed or SetPwm(255)); shared with C03 R-exit/R-init. R-iodata = in the functions reachable from those entries every index, slice expression and integer division whose operand derives from the result of a standard-library call (text read from a device file, the output of a command, the fields of a split line: data the environment controls, not the validated configuration, which is C11's) is proved in bounds by a dominating length guard, a range loop or the range analysis. Not decided: usefulness of continued regulation; library internals (echo, prometheus) are summarised as non-crashing."
+	c.R.Explanation = "C09: decided over the VTA call graph of /repo. Entries = every FanController.UpdateFanSpeed implementation, the actors and interrupt functions of the per-fan run.Group, the sensor-monitor Run, prometheus Collect methods and REST handlers. R-nocrash = no crash site (builtin panic, pterm.Fatal/ui.Fatal, os.Exit/log.Fatal and repository wrappers that never return, comma-less type assertion on an error) lies in an *error context* reachable from those entries; error context = a block reachable from an edge establishing err != nil for an error-typed value, or any function called (transitively) from such a block. Crash sites outside error contexts are listed as not-on-an-I/O-error-path (configuration-dependent ones belong to C11). R-errpair = in the functions reachable from those entries, the value result of a fallible library call (T, error) with T a pointer or interface is dereferenced / has a method invoked only where the error of that same call is established nil; the one partial test of the code base, !os.IsNotExist(err) after os.Stat, is accepted only when the path handed to Stat is the result of a successful filepath.EvalSymlinks (which already failed for every path Stat would fail on; the race between the two calls is assumed away). R-propagate = every SpeedCurve.Evaluate implementation returns a non-nil error on every path from the error edge of a fallible call. R-contain = from the error edge of UpdateFanSpeed in the control goroutine every return is the nil constant and no crash site is reachable. R-actor-nil = every return of every actor of the per-fan run.Group and of the sensor monitor is the nil constant (a non-nil actor error reaches ui.Fatal in the interrupt function and panic(err) in the daemon's actor wrapper). R-restore = when the control goroutine gives up on a fan (cycle error, cancellation, failed initialisation) every return is in state restored of the C03 typestate (original mode confirmed or SetPwm(255)); shared with C03 R-exit/R-init. R-iodata = in the functions reachable from those entries every index, slice expression and integer division whose operand derives from the result of a standard-library call (text read from a device file, the output of a command, the fields of a split line: data the environment controls, not the validated configuration, which is C11's) is proved in bounds by a dominating length guard, a range loop or the range analysis. R-lastgood = C08's R-skip: in the sensor monitor no path from the error edge of Sensor.GetValue reaches the moving-average update (regulation continues on the last good data). R-errnil = a method is invoked on an error value only where it is established non-nil (dominating err != nil, or non-nil by construction: errors.New, fmt.Errorf, boxed value, sentinel; for a helper's error parameter every call site must pass such a value). Not decided: usefulness of continued regulation; library internals (echo, prometheus) are summarised as non-crashing."
 	c.R.Assumptions = append(c.R.Assumptions,
 		"pterm.Fatal printers panic (Fatal flag true) unless derived with WithFatal(false); os.Exit/log.Fatal never return",
 		"library code (echo, prometheus, bbolt, os/exec) does not panic on the inputs it is given")
@@ -194,6 +194,9 @@ func c09(c *Ctx) {
 	c.R.Stats["crash_sites_reachable"] = nsites
 	c.ruleErrPair(reach)
 	c.ruleIOBounds("R-iodata", reach, 1)
+	// a failed sensor read leaves the last good average in place (shared with C08 R-skip)
+	c.ruleAvgSkip("R-lastgood")
+	c.ruleErrNil("R-errnil", reach)
 
 	// ---- R-propagate ------------------------------------------------------------
 	for _, fn := range c.ImplMethods(PkgCurves, "SpeedCurve", "Evaluate") {
@@ -517,4 +520,84 @@ func (c *Ctx) ruleIOBounds(rule string, scope map[*ssa.Function]bool, minSites i
 	if discharged < minSites {
 		c.R.Undecided(rule, "discharged", "(call graph)", "-", sprintf("only %d partial operations seen in scope (expected at least %d): scope unresolved", discharged, minSites))
 	}
+}
+
+// ruleErrNil: a method is invoked on an error value (err.Error(), err.Unwrap(), ...) only where that value is
+// established non-nil: the error result of a call is nil on its success path, and a method call on a nil
+// interface panics. Accepted: values that are non-nil by construction (errors.New, fmt.Errorf, a boxed concrete
+// value, a package-level sentinel), and receivers under a dominating `err != nil` fact.
+func (c *Ctx) ruleErrNil(rule string, scope map[*ssa.Function]bool) {
+	n, nbad := 0, 0
+	for _, fn := range c.SortedFuncs(scope) {
+		Calls(fn, func(cc ssa.CallInstruction) {
+			com := cc.Common()
+			if !com.IsInvoke() || !isErrorType(com.Value.Type()) {
+				return
+			}
+			n++
+			recv := ir.Resolve(com.Value)
+			if c.surelyNonNil(recv, 0) {
+				return
+			}
+			facts := ir.BlockFacts(cc.Block())
+			if ir.HasFact(facts, token.NEQ, func(x, y ssa.Value) bool { return ir.Resolve(x) == recv && ir.IsNilConst(y) }) {
+				return
+			}
+			nbad++
+			key := c.FK(fn) + "|" + com.Method.Name()
+			c.R.Bad(rule, key, c.FK(fn), c.P.Pos(cc.Pos()), "method "+com.Method.Name()+" is invoked on an error value that is not established non-nil here: on the path where the call that produced it succeeded the value is nil and the invoke panics")
+		})
+	}
+	c.R.Ok(rule, "summary", "(call graph)", "-", sprintf("%d method invokes on error values inspected in %d functions, %d without an established non-nil receiver", n, len(scope), nbad))
+}
+
+func (c *Ctx) surelyNonNil(v ssa.Value, depth int) bool {
+	if depth > 3 {
+		return false
+	}
+	switch x := v.(type) {
+	case *ssa.MakeInterface:
+		return true
+	case *ssa.Call:
+		nm := ir.CallName(x)
+		return nm == "errors.New" || nm == "fmt.Errorf"
+	case *ssa.UnOp:
+		_, isGlobal := x.X.(*ssa.Global)
+		return isGlobal && x.Op == token.MUL
+	case *ssa.Phi:
+		for _, e := range x.Edges {
+			if !c.surelyNonNil(ir.Resolve(e), depth+1) {
+				return false
+			}
+		}
+		return len(x.Edges) > 0
+	case *ssa.Parameter:
+		// a helper that formats an error it is given: every static call site passes a non-nil value
+		fn := x.Parent()
+		idx := -1
+		for i, p := range fn.Params {
+			if p == x {
+				idx = i
+			}
+		}
+		sites := c.StaticCallers(fn)
+		if idx < 0 || len(sites) == 0 {
+			return false
+		}
+		for _, site := range sites {
+			args := site.Common().Args
+			if idx >= len(args) {
+				return false
+			}
+			a := ir.Resolve(args[idx])
+			if c.surelyNonNil(a, depth+1) {
+				continue
+			}
+			if !ir.HasFact(ir.BlockFacts(site.Block()), token.NEQ, func(p, q ssa.Value) bool { return ir.Resolve(p) == a && ir.IsNilConst(q) }) {
+				return false
+			}
+		}
+		return true
+	}
+	return false
 }
